@@ -71,6 +71,30 @@ CHECKS = {
              "independent Spec faceAdj; open: graph_rate_eq_grid_rate needs C01's engine model (checked on the real code).",
         technique="Lean 4 proof over translator-generated formulas + exhaustive differential correspondence",
         design="§6 C15"),
+    "C19": dict(
+        text="Lean theorems about a line-by-line model of Reaction._fromstring / to_string / ssto / psto / dsto / order / "
+             "k*_units_dimensions / process_unitvar_input / split / equilibrium_constant / RDNetwork._assert_validity: "
+             "parsing a rendered equation (any spacing, any labels allowed by the rules) gives the written coefficients with "
+             "repeats summed; dsto = psto - ssto; order = sum of coefficients; print-parse round trip; k dimension = "
+             "(3n-3, -1, 1-n); bare numbers get it, other dimensions are rejected; split; K = kf/kr in SI; network "
+             "refusals as an iff. Tie: translator group Network (formulas + source constants) + correspondence "
+             "(op reaction / network) + AST oracle on the real code.",
+        note="Lean kernel + {propext, Classical.choice, Quot.sound}; translator; correspondence harness; CPython "
+             "str.split/strip/int/str(int) modelled explicitly (ASCII blanks and digits) and correspondence-tested.",
+        technique="Lean 4 proof over a hand-written parser model + translator-generated formulas + differential correspondence",
+        design="§6 C19"),
+    "C20": dict(
+        text="Lean theorems, one per class of invalid input of the statement, about a model of the package's checks over "
+             "tables regenerated from the sources (alias lists and mandatory keys of every *_from_dict, accepted enumerations "
+             "in Python and in the C++ CompareStr chains, grid size / environment map / index range tests, the dimension "
+             "each quantity field demands, unit symbol lists, coarse-graining map rules): op input = error <-> Invalid input "
+             "(or Invalid -> error), and no_cross_entry from index injectivity. Tie: translator groups Validation / IndexPy / "
+             "Network / Units + correspondence (op validate) + oracle on the real code: valid random nested models x one "
+             "injected fault x every level; exhaustive out-of-range index / triple sweep with state compared before/after.",
+        note="Lean kernel + {propext, Classical.choice, Quot.sound}; translator; correspondence harness; the whole-build "
+             "outcome is attributed to the single injected fault (the unfaulted model is first accepted by the real code).",
+        technique="Lean 4 proof over translator-generated validation tables + fault-injection differential correspondence",
+        design="§6 C20"),
 }
 
 ALL = ["C%02d" % i for i in range(1, 21)]
